@@ -90,6 +90,7 @@ pub(super) fn poll_connect(
             state: TcpState::SynSent,
             peer,
             snd_nxt: isn.wrapping_add(1),
+            snd_max: isn.wrapping_add(1),
             snd_una: isn.wrapping_add(1),
             snd_wnd: DEFAULT_WINDOW,
             rcv_nxt: 0,
@@ -306,7 +307,12 @@ fn handle_established(
         // bytes drained or the window grew.
         if s.flags.ack {
             let acked = s.ack.wrapping_sub(tcb.snd_una);
-            let in_flight = tcb.snd_nxt.wrapping_sub(tcb.snd_una);
+            // Measured against the highest sequence ever sent, not
+            // `snd_nxt`: after a go-back-N rewind `snd_nxt` restarts at
+            // `snd_una`, and an ACK for the earlier transmission must
+            // still count or the connection retransmits into its own
+            // ignored ACKs until it times out.
+            let in_flight = tcb.snd_max.wrapping_sub(tcb.snd_una);
             if acked > 0 && acked <= in_flight {
                 // FIN (if sent) sits at `fin_seq` and consumes one seq
                 // past the data. Don't try to drain buffer bytes for
@@ -318,6 +324,10 @@ fn handle_established(
                 let data_bytes = if fin_acked { acked - 1 } else { acked };
                 if data_bytes > 0 {
                     let _ = tcb.send_buf.split_to(data_bytes as usize);
+                }
+                if tcb.snd_nxt.wrapping_sub(tcb.snd_una) < acked {
+                    // rewound below the ACK: resume from the ACK point
+                    tcb.snd_nxt = s.ack;
                 }
                 tcb.snd_una = s.ack;
                 // Progress — retx machinery resets.
@@ -472,6 +482,7 @@ fn accept_syn(
             state: TcpState::SynReceived,
             peer: remote,
             snd_nxt: isn.wrapping_add(1),
+            snd_max: isn.wrapping_add(1),
             snd_una: isn.wrapping_add(1),
             snd_wnd: s.window,
             rcv_nxt: s.seq.wrapping_add(1),
@@ -1299,12 +1310,18 @@ fn segment_one(k: &mut Kernel, fd: Fd) {
                 let payload = Bytes::copy_from_slice(&tcb.send_buf[start..end]);
                 let seq = tcb.snd_nxt;
                 tcb.snd_nxt = tcb.snd_nxt.wrapping_add(n as u32);
+                if tcb.snd_nxt.wrapping_sub(tcb.snd_una) > tcb.snd_max.wrapping_sub(tcb.snd_una) {
+                    tcb.snd_max = tcb.snd_nxt;
+                }
                 (seq, payload, false)
             } else if fin_pending && wnd_remaining > 0 {
                 // Emit the FIN. It occupies one sequence number but
                 // carries no payload.
                 let seq = tcb.snd_nxt;
                 tcb.snd_nxt = tcb.snd_nxt.wrapping_add(1);
+                if tcb.snd_nxt.wrapping_sub(tcb.snd_una) > tcb.snd_max.wrapping_sub(tcb.snd_una) {
+                    tcb.snd_max = tcb.snd_nxt;
+                }
                 (seq, Bytes::new(), true)
             } else {
                 return;
